@@ -494,6 +494,15 @@ class Lib:
             raise Unsupported('dict comprehension shape at line %d' % e.lineno)
         g = e.generators[0]
         src = run.ev(g.iter, env)
+        if isinstance(src, _PyList) or (isinstance(src, tuple) and not (src and isinstance(src[0], str))):
+            # concrete python-level sequence: the pairs in order (later keys overwrite earlier ones when stored)
+            from .engine import _PyDictLit
+            pairs = []
+            for item in (src.items if isinstance(src, _PyList) else src):
+                le = _ChainEnv(env)
+                run.assign(g.target, item, le, e.lineno)
+                pairs.append((run.ev(e.key, le), run.ev(e.value, le)))
+            return _PyDictLit(pairs)
         if isinstance(src, tuple) and src and isinstance(src[0], str) and src[0] == 'items' and isinstance(g.target, ast.Tuple) and len(g.target.elts) == 2 \
                 and all(isinstance(t, ast.Name) for t in g.target.elts) and isinstance(e.key, ast.Name) and e.key.id == g.target.elts[0].id:
             d = src[1]
